@@ -374,6 +374,61 @@ def main_writes(repo, outdir):
     return 0
 
 
+# ------------------------------------------------------------------ estimator configurations (C11)
+EST_FILES = ["skglm/estimators.py", "skglm/experimental/sqrt_lasso.py"]
+ESTIMATORS = ["GeneralizedLinearEstimator", "Lasso", "WeightedLasso", "ElasticNet", "MCPRegression", "SparseLogisticRegression",
+              "LinearSVC", "CoxEstimator", "MultiTaskLasso", "GroupLasso", "SqrtLasso"]
+
+
+def ctor_signatures(repo):
+    sigs = {}
+    for rel in DATAFIT_FILES + PENALTY_FILES + list(SOLVERS.values()):
+        for node in parse(repo, rel).body:
+            if isinstance(node, ast.ClassDef):
+                for m in node.body:
+                    if isinstance(m, ast.FunctionDef) and m.name == "__init__":
+                        sigs[node.name] = [a.arg for a in m.args.args[1:]]
+    return sigs
+
+
+def estimator_configs(repo):
+    sigs = ctor_signatures(repo)
+    out = {}
+    for rel in EST_FILES:
+        for node in parse(repo, rel).body:
+            if isinstance(node, ast.ClassDef) and node.name in ESTIMATORS:
+                calls = set()
+                for m in node.body:
+                    if isinstance(m, ast.FunctionDef) and m.name in ("fit",) or (isinstance(m, ast.FunctionDef) and m.name == "path" and node.name == "SqrtLasso"):
+                        for n in ast.walk(m):
+                            if isinstance(n, ast.Call) and isinstance(n.func, ast.Name) and n.func.id in sigs:
+                                names = sigs[n.func.id]
+                                kws = {}
+                                for i, a in enumerate(n.args):
+                                    kws[names[i] if i < len(names) else f"arg{i}"] = ast.unparse(a)
+                                for k in n.keywords:
+                                    kws[k.arg] = ast.unparse(k.value)
+                                kws.pop("verbose", None)
+                                calls.add(n.func.id + "(" + ", ".join(f"{k}={v}" for k, v in sorted(kws.items())) + ")")
+                out[node.name] = sorted(calls)
+    return out
+
+
+def main_configs(repo, outdir):
+    cfg = estimator_configs(repo)
+    json.dump(cfg, open(os.path.join(outdir, "configs.json"), "w"), indent=1)
+    lines = ["(* GENERATED by tools/extract.py (estimator configurations) from /repo's AST -- do not edit. *)",
+             "From Coq Require Import String List.", "Import ListNotations.", "Open Scope string_scope.", "",
+             "Definition configs : list (string * list string) := ["]
+    lines.append(";\n".join("  (%s, %s)" % (coq_str(k), coq_list(["\n     " + coq_str(c) for c in v])) for k, v in sorted(cfg.items())))
+    lines.append("].")
+    text = "\n".join(lines) + "\n"
+    p = os.path.join(outdir, "Configs.v")
+    if not os.path.exists(p) or open(p).read() != text:
+        open(p, "w").write(text)
+    return 0
+
+
 if __name__ == "__main__":
     import argparse
     ap = argparse.ArgumentParser()
@@ -382,6 +437,9 @@ if __name__ == "__main__":
     a = ap.parse_args()
     rc = main(a.repo, a.out)
     main_writes(a.repo, a.out)
+    main_configs(a.repo, a.out)
     sys.exit(rc)
+
+
 
 
